@@ -45,6 +45,7 @@
     and batch operations in worlds with relation components. *)
 From Ark Require Import Model.Base Model.Mask Model.Pool Model.Util Model.World Model.Run.
 From Ark Require Import Proofs.WF Proofs.StorageA Proofs.StorageBDefs Proofs.StorageB_sb2 Proofs.ViewProofs Proofs.CacheProofs Proofs.BatchProofs Proofs.BatchOps Proofs.StorageD Properties.Common.
+From Ark Require Import Proofs.Rel2Defs Proofs.Rel2Maint Proofs.Rel2Hist Proofs.Rel2Cache Proofs.Rel2Batch Proofs.Rel2BatchNew Proofs.Rel2BatchExchange Proofs.Rel2BatchSetRel Proofs.Rel2BatchHist.
 
 Theorem C06_table_move_is_per_entity_exchange : forall s otid ntid ot nt oa na, St s -> otid <> ntid ->
   nth_error (w_tables s) otid = Some ot -> nth_error (w_tables s) ntid = Some nt ->
@@ -208,7 +209,213 @@ Proof. vm_compute. reflexivity. Qed.
     selection theorems above are invariants. *)
 Definition C06_selection_exact_after_every_history := reachable_batch_selection_exact.
 
-Definition C06_all := (C06_selection_exact_after_every_history, C06_table_move_is_per_entity_exchange, C06_destination_mask, C06_single_exchange,
+(** ** RELATION WORLDS (Rel2Batch*.v): the batch operations for every state satisfying the relation-tier
+    invariant [St2] (+ KeysLive, no observers, unlocked). RemoveEntities removes exactly the entities of the
+    selected tables and detaches their dependants; NewBatch creates exactly n fresh entities; ExchangeBatch and
+    SetRelationsBatch equal the per-entity operation on exactly the selected entities (one batch callback
+    each), keep the invariant and the lock state in BOTH outcomes with arbitrary arguments; a SetRelationsBatch
+    rejected for one of its tables changes nothing (planning precedes every move, repaired defect d62e1af);
+    the invariant after every history mixing single-entity and batch operations ([reachable_inv2B]; the two
+    excluded forms - a panicking USER callback in RemoveEntities / NewBatchFn leaves the world locked - are
+    shown necessary by [step_inv2B_remove_refuted], [step_inv2B_newbatch_refuted]). *)
+Theorem C06_rel_remove_entities :
+  forall (s : W) (fi : nat) (f : fobj) (rels : list rel) (fn : bool),
+         St2 s ->
+         r2d_KeysLive s ->
+         r2e_noobs s ->
+         is_locked s = false ->
+         (fn = true -> lock_lock (w_lock s) <> None) ->
+         nth_error (w_filters s) fi = Some f ->
+         f_cache f = None ->
+         r2k_rels_ok s (f_mask f) rels ->
+         r2k_tabled s f ->
+         exists (tabs : list nat) (s' : W),
+           w_remove_entities fi rels fn s = Ok tt s' /\
+           r2B_rm_post s tabs fn s' /\ NoDup tabs /\ (forall tid : nat, In tid tabs <-> r2k_sel s f rels tid).
+Proof. exact r2B_remove_entities_never_fails. Qed.
+
+Theorem C06_rel_remove_entities_both_outcomes :
+  forall (s : W) (fi : nat) (rels : list rel) (fn : bool),
+         St2 s ->
+         r2d_KeysLive s ->
+         r2e_noobs s ->
+         is_locked s = false ->
+         let s' := state_of (w_remove_entities fi rels fn s) in
+         St2 s' /\
+         r2d_KeysLive s' /\
+         r2e_noobs s' /\ (is_err (w_remove_entities fi rels fn s) = false -> is_locked s' = false).
+Proof. exact r2B_remove_entities_inv. Qed.
+
+Theorem C06_rel_new_batch :
+  forall (s : W) (n : nat) (ids : list nat) (rels : list rel) (vals : list (nat * Z)) (fn : bool),
+         St2 s ->
+         r2d_KeysLive s ->
+         r2e_noobs s ->
+         is_locked s = false ->
+         room_n s n ->
+         registered s ids ->
+         NoDup ids ->
+         Rel2Ops.r2a_rels_ok s ids rels ->
+         Rel2Ops.r2a_rels_complete s ids rels ->
+         (fn = true -> lock_lock (w_lock s) <> None /\ (n = 0 \/ r2n_vals_ok ids vals)) ->
+         exists s' : W,
+           w_new_batch n ids rels vals fn s = Ok tt s' /\
+           r2n_inv s' /\
+           is_locked s' = false /\
+           frame_user s s' /\
+           (exists es : list ent,
+              r2n_created s s' n ids rels (fun c : nat => if fn then bo_cbval s vals c else 0%Z) es /\
+              w_log s' = w_log s ++ (if fn then map b_entry es else [])).
+Proof. exact r2n_new_batch_ok. Qed.
+
+Theorem C06_rel_exchange_batch :
+  forall (s : W) (fi : nat) (brels : list rel) (tabs add rem : list nat) (rels : list rel)
+           (vals : list (nat * Z)),
+         St2 s ->
+         r2d_KeysLive s ->
+         r2e_noobs s ->
+         is_locked s = false ->
+         lock_lock (w_lock s) <> None ->
+         add <> [] \/ rem <> [] ->
+         registered s add ->
+         Rel2Ops.r2a_rels_ok s add rels ->
+         (forall cv : nat * Z, In cv vals -> In (fst cv) add) ->
+         get_batch_tables fi brels s = Ok tabs s ->
+         (forall tid : nat,
+          In tid tabs -> exists t : table, nth_error (w_tables s) tid = Some t /\ t_free t = false) ->
+         match w_exchange_batch fi brels add rem rels vals s with
+         | Ok _ s' =>
+             (forall (tid : nat) (t : table) (oa : arch),
+              In tid tabs ->
+              nth_error (w_tables s) tid = Some t ->
+              t_len t <> 0 ->
+              nth_error (w_archs s) (t_arch t) = Some oa -> r2x_ready s add rem rels (a_mask oa)) /\
+             St2 s' /\
+             r2d_KeysLive s' /\
+             r2e_noobs s' /\
+             is_locked s' = false /\
+             (forall e : ent,
+              live s e = true ->
+              bo_in_tabs s tabs e ->
+              live s' e = true /\
+              (forall c : nat, val s' e c = bo_newval s add rem vals e c) /\
+              (forall c : nat,
+               tgt s' e c =
+               (if memb c add
+                then Some (Rel2Ops.r2a_new_target rels c)
+                else if memb c rem then None else tgt s e c))) /\
+             (forall e : ent,
+              live s e = true ->
+              ~ bo_in_tabs s tabs e ->
+              live s' e = true /\
+              (forall c : nat, val s' e c = val s e c) /\ (forall c : nat, tgt s' e c = tgt s e c)) /\
+             (forall e : ent, live s e = false -> live s' e = false) /\
+             (exists es : list ent,
+                w_log s' = w_log s ++ map b_entry es /\
+                NoDup es /\ (forall e : ent, In e es <-> live s e = true /\ bo_in_tabs s tabs e)) /\
+             w_pool s' = w_pool s /\ frame_user s s'
+         | Err _ s' =>
+             (exists (tid : nat) (t : table) (oa : arch),
+                In tid tabs /\
+                nth_error (w_tables s) tid = Some t /\
+                t_len t <> 0 /\
+                nth_error (w_archs s) (t_arch t) = Some oa /\ ~ r2x_ready s add rem rels (a_mask oa)) /\
+             St2 s' /\
+             r2d_KeysLive s' /\
+             r2e_noobs s' /\
+             is_locked s' = false /\
+             content_same s s' /\
+             Rel2Remove.r2c_tgt_same s s' /\ w_log s' = w_log s /\ w_pool s' = w_pool s /\ frame_user s s'
+         end.
+Proof. exact r2x_exchange_batch_spec. Qed.
+
+Theorem C06_rel_exchange_batch_any_arguments :
+  forall (s : W) (fi : nat) (brels : list rel) (add rem : list nat) (rels : list rel)
+           (vals : list (nat * Z)),
+         St2 s ->
+         r2d_KeysLive s ->
+         r2e_noobs s ->
+         is_locked s = false ->
+         r2x_args s add rels ->
+         St2 (state_of (w_exchange_batch fi brels add rem rels vals s)) /\
+         r2d_KeysLive (state_of (w_exchange_batch fi brels add rem rels vals s)) /\
+         r2e_noobs (state_of (w_exchange_batch fi brels add rem rels vals s)) /\
+         is_locked (state_of (w_exchange_batch fi brels add rem rels vals s)) = false /\
+         frame_user s (state_of (w_exchange_batch fi brels add rem rels vals s)) /\
+         w_pool (state_of (w_exchange_batch fi brels add rem rels vals s)) = w_pool s /\
+         (forall e : ent, live (state_of (w_exchange_batch fi brels add rem rels vals s)) e = live s e).
+Proof. exact r2x_exchange_batch_inv. Qed.
+
+Theorem C06_rel_set_relations_batch :
+  forall (s : W) (fi : nat) (brels : list rel) (rels : list (nat * ent)) (u : unit) (s' : W),
+         St2 s ->
+         r2d_KeysLive s ->
+         r2e_noobs s ->
+         is_locked s = false ->
+         (forall r : nat * ent, In r rels -> Rel2SetRel.r2b_handle_ok s (snd r)) ->
+         w_set_relations_batch fi brels rels s = Ok u s' ->
+         r2s_post s s' /\
+         rels <> [] /\
+         (exists tabs : list nat,
+            get_batch_tables fi brels s = Ok tabs s /\
+            NoDup tabs /\
+            (forall e : ent,
+             r2s_in_tabs s tabs e ->
+             live s' e = true /\
+             (forall c : nat, val s' e c = val s e c) /\
+             (forall c : nat, tgt s' e c = r2s_new rels (tgt s e c) c)) /\
+            (forall e : ent,
+             ~ r2s_in_tabs s tabs e ->
+             live s' e = live s e /\
+             (forall c : nat, val s' e c = val s e c) /\ (forall c : nat, tgt s' e c = tgt s e c)) /\
+            (exists es : list ent,
+               w_log s' = w_log s ++ map b_entry es /\
+               NoDup es /\
+               (forall e : ent,
+                In e es <->
+                r2s_in_tabs s tabs e /\ (exists r : nat * ent, In r rels /\ tgt s e (fst r) <> Some (snd r))))).
+Proof. exact r2s_set_relations_batch_spec. Qed.
+
+Theorem C06_rel_set_relations_batch_both_outcomes :
+  forall (s : W) (fi : nat) (brels : list rel) (rels : list (nat * ent)),
+         St2 s ->
+         r2d_KeysLive s ->
+         r2e_noobs s ->
+         is_locked s = false ->
+         (forall r : nat * ent, In r rels -> Rel2SetRel.r2b_handle_ok s (snd r)) ->
+         match w_set_relations_batch fi brels rels s with
+         | Ok _ s' => r2s_post s s'
+         | Err _ s' =>
+             r2s_post s s' /\
+             content_same s s' /\ (forall (e0 : ent) (c : nat), tgt s' e0 c = tgt s e0 c) /\ w_log s' = w_log s
+         end.
+Proof. exact r2s_set_relations_batch_inv. Qed.
+
+Theorem C06_rel_invariant_after_every_history_with_batches :
+  forall (c : script_cfg) (lines : list (list Z)),
+         cfg_ok2 c ->
+         Forall (r2h_line (length (sc_kinds c))) lines ->
+         r2h_total lines + 4 < 2 ^ 31 -> Inv2 (exec c lines) (r2h_total lines).
+Proof. exact reachable_inv2B. Qed.
+
+Theorem C06_rel_batch_step_any_arguments :
+  forall (debug wd : bool) (s : W) (n : nat) (line : list Z) (o : op),
+         Inv2 s n ->
+         n + r2h_created o + 4 < 2 ^ 31 ->
+         decode_op line = Some o ->
+         r2h_batch_op o = true ->
+         (forall c : nat, In c (r2h_op_ids o) -> c < length (w_reg s)) ->
+         let s' := fst (step debug wd s line) in
+         Inv2L s' (n + S (r2h_created o)) /\
+         w_reg s' = w_reg s /\
+         (exists es : list ent,
+            w_issued s' = w_issued s ++ es /\ (forall e : ent, In e es -> live s' e = true /\ live s e = false)) /\
+         (is_locked s' = false \/
+          is_err (step_op debug o (RecordSet.set w_log (fun _ : list (list Z) => []) s)) = true /\
+          r2h_leak (RecordSet.set w_log (fun _ : list (list Z) => []) s) o).
+Proof. exact step_inv2B_storage. Qed.
+
+Definition C06_all := (C06_rel_remove_entities, C06_rel_remove_entities_both_outcomes, C06_rel_new_batch, C06_rel_exchange_batch, C06_rel_exchange_batch_any_arguments, C06_rel_set_relations_batch, C06_rel_set_relations_batch_both_outcomes, C06_rel_invariant_after_every_history_with_batches, C06_rel_batch_step_any_arguments, C06_selection_exact_after_every_history, C06_table_move_is_per_entity_exchange, C06_destination_mask, C06_single_exchange,
   C06_batch_creation, C06_new_entities, C06_new_entities_needs_a_lock_bit,
   C06_exchange_batch, C06_remove_entities, C06_new_batch, C06_selection_uncached, C06_selection_cached,
   C06_filter_exists_is_not_enough, C06_whole_ops_nonvacuous).
